@@ -15,7 +15,7 @@ vp_enc_(T, E, Vs0, Vs) :-
     (   var(T) -> vp_var_idx(T, Vs0, Vs, N), E = v(N)
     ;   integer(T) -> E = i(T), Vs = Vs0
     ;   float(T) -> E = f(T), Vs = Vs0
-    ;   number(T) -> rational_numerator_denominator(T, N, D), E = r(N, D), Vs = Vs0
+    ;   number(T) -> once(rational_numerator_denominator(T, N, D)), E = r(N, D), Vs = Vs0
     ;   atom(T) -> atom_codes(T, Cs), E = a(Cs), Vs = Vs0
     ;   T = [_|_] -> vp_enc_list(T, Items, Tail, Vs0, Vs), E = l(Items, Tail)
     ;   functor(T, Name, Arity),
